@@ -363,6 +363,7 @@ func (vc *VC) sortOf(t types.Type) string {
 }
 
 func (vc *VC) structSort(t types.Type, st *types.Struct) string {
+	t = types.Unalias(t)
 	n := sym("S$" + shortTypeKey(t))
 	if vc.declared["sort:"+n] {
 		return n
@@ -381,8 +382,9 @@ func (vc *VC) structSort(t types.Type, st *types.Struct) string {
 	return n
 }
 
-func (vc *VC) structCtor(t types.Type) string { return sym("mk$" + shortTypeKey(t)) }
+func (vc *VC) structCtor(t types.Type) string { return sym("mk$" + shortTypeKey(types.Unalias(t))) }
 func (vc *VC) structSel(t types.Type, i int) string {
+	t = types.Unalias(t)
 	st := t.Underlying().(*types.Struct)
 	return sym(fmt.Sprintf("sel$%s$%s", shortTypeKey(t), st.Field(i).Name()))
 }
